@@ -2,7 +2,10 @@ module verifharness
 
 go 1.21
 
-require github.com/tonistiigi/fsutil v0.0.0
+require (
+	github.com/tonistiigi/fsutil v0.0.0
+	golang.org/x/sys v0.11.0
+)
 
 require (
 	github.com/containerd/continuity v0.4.1 // indirect
@@ -11,7 +14,6 @@ require (
 	github.com/pkg/errors v0.9.1 // indirect
 	github.com/planetscale/vtprotobuf v0.6.0 // indirect
 	golang.org/x/sync v0.1.0 // indirect
-	golang.org/x/sys v0.11.0 // indirect
 	google.golang.org/protobuf v1.31.0 // indirect
 )
 
